@@ -232,6 +232,7 @@ InStateOn(c, b) ==      \* validate_block_in_coinstate(block, c) for a chain-sta
 InState(b) == InStateOn(CSV, b)
 
 FirstFailing(b, now) == LET f == ByItself(b, now) IN IF f # "" THEN f ELSE InState(b)
+FirstFailingOn(c, b, now) == LET f == ByItself(b, now) IN IF f # "" THEN f ELSE InStateOn(c, b)
 
 ParentUOn(c, b) == IF IsRoot(b) THEN [ok |-> TRUE, u |-> EmptyU]
                    ELSE IF b.parent \in DOMAIN c.utxo THEN [ok |-> TRUE, u |-> c.utxo[b.parent]]
